@@ -7,6 +7,7 @@ import FsVerif.Model.Basic
 import FsVerif.Model.PosStore
 import FsVerif.Model.BufStore
 import FsVerif.Model.PrioReq
+import FsVerif.Model.FleetStore
 import FsVerif.Model.Node.Source
 import FsVerif.Model.Node.Machine
 import FsVerif.Model.Node.Pack
@@ -39,6 +40,7 @@ inductive M where
   | snk (s : SinkState)
   | mac (s : MacState)
   | pack (s : PackState)
+  | fleet (s : FleetStore)
 
 def showRes : PosStore.Res → String
   | .ok => "ok" | .tok i => s!"tok {i}" | .item x => s!"item {x.id}"
@@ -74,6 +76,21 @@ def bufOp (w : List String) : Option BufStore.Op :=
   | ["adv", d] => do pure (.adv (← parseNat d))
   | ["settle"] => some .settle
   | ["kstep"] => some .kstep
+  | ["final"] => some .final
+  | _ => none
+
+def fleetOp (w : List String) : Option FleetStore.Op :=
+  match w with
+  | ["rp", p] => do pure (.reservePut (← parseNat p))
+  | ["rg", p] => do pure (.reserveGet (← parseNat p))
+  | ["rp", p, _] => do pure (.reservePut (← parseNat p))
+  | ["rg", p, _, _] => do pure (.reserveGet (← parseNat p))
+  | ["put", p, t, i, k, _] => do pure (.put (← parseNat p) (← parseNat t) { id := (← parseNat i), kind := (← parseNat k) })
+  | ["get", p, t] => do pure (.get (← parseNat p) (← parseNat t))
+  | ["cp", t] => do pure (.cancelPut (← parseNat t))
+  | ["cg", t] => do pure (.cancelGet (← parseNat t))
+  | ["adv", d] => do pure (.adv (← parseNat d))
+  | ["ev"] => some .ev
   | ["final"] => some .final
   | _ => none
 
@@ -175,6 +192,10 @@ def stepLine (m : M) (line : String) : M × String :=
                                blocking := b != 0, inPol := ip, outPol := op, nin := ni, nout := no,
                                target := (target.splitOn "+").filterMap String.toNat? }), "new")
     | _, _, _, _, _, _, _ => (m, "bad-op")
+  | ["new", "fleet", cap, delay, transit] =>
+    match parseCap cap, parseNat delay, parseNat transit with
+    | some c, some d, some tr => (.fleet (FleetStore.init { cap := c, delay := d, transit := tr }), "new")
+    | _, _, _ => (m, "bad-op")
   | ["new", "prq", cap] =>
     match parseNat cap with
     | some c => (.prq (PrioReq.init c), "new")
@@ -236,6 +257,21 @@ def stepLine (m : M) (line : String) : M × String :=
         let s' := s.step op
         (.prq s', if s'.err then "err ValueError" else s!"req {s.nextId} | {showPFired s'.fired} | {s'.items.length}")
       | none => (m, "bad-op")
+    | .fleet s =>
+      match w with
+      | ["stat"] => (m, s!"stat {s.b.avgNum} {s.b.avgDen} {s.b.level} {s.b.now}")
+      | ["probe", "can_put"] => (m, s!"probe {s.canPut}")
+      | ["probe", "can_get"] => (m, s!"probe {s.canGet}")
+      | ["probe", "occ"] => (m, s!"probe {s.b.occupancy}")
+      | ["probe", "ready"] => (m, s!"probe {showNats (s.b.ready.map (·.item.id))}")
+      | ["probe", "queue"] => (m, s!"probe {s.queue.length} {(s.queue.head?.map (·.time)).getD 0}")
+      | _ =>
+        match fleetOp w with
+        | some op =>
+          let (s', r) := s.step op
+          let head := if op == .ev then s!"t={s'.now}" else showResB r
+          (.fleet s', s!"{head} | {showFired s'.b.fired} | {showNats s'.newReady}" ++ (if s'.b.crashed then " CRASHED" else "") ++ (if s'.flagged then " FLAGGED" else ""))
+        | none => (m, "bad-op")
     | .buf s =>
       match w with
       | ["stat"] => (m, s!"stat {s.avgNum} {s.avgDen} {s.level} {s.now}")
